@@ -4,10 +4,9 @@ C05 — property theorems (statements only; proofs are in `Proofs*.lean`).
 
 Block storage is atomic and crash-consistent at every interruption point. `W` is
 `core.NumBlocksPerFilter` (8192 in juno); everything holds for every `W > 0`. `fx : Fixes` says which
-repairs the code contains: `Fixes.now` = /repo at 3c301f0 (84d7a3b, 702b167, 3373c0b are in; a failed
-lazy filter initialisation still caches its error), `Fixes.all` = with
-proposed-fixes/C05-filter-init-error-not-cached.diff as well. The harness probes the real code and
-refuses to run when the probed variant is older than what `known/C05.json` records as fixed.
+repairs the code contains: `Fixes.all` = /repo since c8ac4a7 (84d7a3b, 702b167, 3373c0b, c8ac4a7 are
+all in); older variants appear in regression witnesses only (`*_before_<commit>`). The harness probes
+the real code and refuses to run (harness failure, never green) unless it behaves as `Fixes.all`.
 
 Faults (`Fault`): `failAt k` — the k-th commit of the call fails, nothing of it is applied;
 `crashAfter k` — the process dies right after it; `failInit` — the direct window write of a lazy
@@ -74,7 +73,7 @@ snapshot — if any — describes a prefix of `c` (`SnapOK`), and the in-memory 
 (lazy: rebuilt from the disk on next use) or describes `c` (`MemOK`; a filter whose initialisation
 error is cached, `Mem.broken`, is NOT ok). -/
 
-/-- `crash_consistent` (code with all four repairs): for EVERY history over {store or refused offer
+/-- `crash_consistent` (/repo since c8ac4a7): for EVERY history over {store or refused offer
 of any block, RevertHead, set-L1-head, snapshot, graceful restart, kill} from the empty node and
 EVERY fault schedule — failure of any commit, failure of a lazy initialisation's write, crash
 after any commit or after the initialisation's write — the node ends good. -/
@@ -112,7 +111,7 @@ theorem memory_tracks_disk (W : Nat) (hW : 0 < W) (hs : List (Op × Fault))
   obtain ⟨c, hg⟩ := crash_consistent W hW hs hv
   exact ⟨c, hg.coh, hg.mem⟩
 
-/-- One call of the fully repaired code from a good node, any fault. -/
+/-- One call from a good node, any fault (the invariant step of `crash_consistent`). -/
 theorem call_keeps_good (W : Nat) (hW : 0 < W) (c : List Block) (n : Node) (hg : Good W c n)
     (op : Op) (ft : Fault)
     (hv : match op with
@@ -121,43 +120,6 @@ theorem call_keeps_good (W : Nat) (hW : 0 < W) (c : List Block) (n : Node) (hg :
       | _ => True) :
     ∃ c', Good W c' (exec W Fixes.all n op ft).1 :=
   exec_good_repaired hW rfl rfl rfl rfl hg op ft hv
-
-/-! ### The code as it is (`Fixes.now`): true except for a failed initialisation write -/
-
-/-- `crash_consistent_partial` (/repo at 3c301f0): the same, for every history and fault schedule
-in which no write of a lazy filter initialisation fails (`failInit`); crashes inside the
-initialisation are covered. Partial because juno violates the full statement: next theorem. -/
-theorem crash_consistent_partial (W : Nat) (hW : 0 < W) (hs : List (Op × Fault))
-    (hv : ValidHist W Fixes.now Node.init hs) (hni : ∀ x ∈ hs, x.2 ≠ .failInit) :
-    ∃ c, Good W c (run W Fixes.now Node.init hs) :=
-  good_run_now hW rfl rfl rfl hs Node.init [] (good_init W hW) hv hni
-
-/-- `memory_tracks_disk_partial`: … hence the memory filter is dropped or exact. -/
-theorem memory_tracks_disk_partial (W : Nat) (hW : 0 < W) (hs : List (Op × Fault))
-    (hv : ValidHist W Fixes.now Node.init hs) (hni : ∀ x ∈ hs, x.2 ≠ .failInit) :
-    ∃ c, Coh c (run W Fixes.now Node.init hs).disk ∧ MemOK W c (run W Fixes.now Node.init hs).mem := by
-  obtain ⟨c, hg⟩ := crash_consistent_partial W hW hs hv hni
-  exact ⟨c, hg.coh, hg.mem⟩
-
-/-- `restart_ok_partial` (/repo at 3c301f0): after any such history a new process initialises its
-running filter successfully and exactly. -/
-theorem restart_ok_partial (W : Nat) (hW : 0 < W) (hs : List (Op × Fault))
-    (hv : ValidHist W Fixes.now Node.init hs) (hni : ∀ x ∈ hs, x.2 ≠ .failInit) :
-    ∃ c f d', Coh c (run W Fixes.now Node.init hs).disk ∧
-      initFilter W (run W Fixes.now Node.init hs).disk = some (f, d') ∧ FiltOK W c f := by
-  obtain ⟨c, hg⟩ := crash_consistent_partial W hW hs hv hni
-  obtain ⟨f, d', h1, h2⟩ := initFilter_good hW hg.wf hg.coh hg.wins hg.snap
-  exact ⟨c, f, d', hg.coh, h1, h2⟩
-
-/-- `next_block_storable_partial` (/repo at 3c301f0): … and the live node (after a failed call as
-well) stores the block the network offers next. -/
-theorem next_block_storable_partial (W : Nat) (hW : 0 < W) (hs : List (Op × Fault))
-    (hv : ValidHist W Fixes.now Node.init hs) (hni : ∀ x ∈ hs, x.2 ≠ .failInit) :
-    ∃ c, Coh c (run W Fixes.now Node.init hs).disk ∧
-      ∀ b, NextBlock c (run W Fixes.now Node.init hs).disk b →
-        (exec W Fixes.now (run W Fixes.now Node.init hs) (.store b) .none).2 = .ok := by
-  obtain ⟨c, hg⟩ := crash_consistent_partial W hW hs hv hni
-  exact ⟨c, hg.coh, fun b hn => store_ok_of_good hW _ hg hn⟩
 
 def b0 : Block := ⟨0, 1, 0, 11, 0, 11, [5], [100]⟩
 def b1 : Block := ⟨1, 2, 1, 12, 11, 12, [6], [101]⟩
@@ -168,24 +130,6 @@ def b2 : Block := ⟨2, 3, 2, 13, 12, 13, [7], []⟩
 block 1 (the last of its window, W = 2), ungraceful stop. -/
 def hInit : List (Op × Fault) :=
   [(.store b0, .none), (.restart, .none), (.store b1, .none), (.kill, .none)]
-
-/-- NEGATION of `memory_tracks_disk` / `next_block_storable` for the code as it is (L17): the
-initialisation's window write fails once inside `WriteRunningEventFilter` — the error is cached
-(`Mem.broken`); every later snapshot attempt fails with it although the disk is intact and
-healthy, and the next block is refused once (the failed Store then drops the filter). -/
-theorem failed_init_write_is_cached :
-    let n := run 2 .now Node.init (hInit ++ [(.snap, .failInit)])
-    n.mem = .broken ∧ getHeight n.disk = some 1 ∧
-    (exec 2 .now n .snap .none).2 = .err .init ∧
-    (exec 2 .now (exec 2 .now n .snap .none).1 .snap .none).2 = .err .init ∧
-    (exec 2 .now n (.store b2) .none).2 = .err .init ∧
-    (exec 2 .now (exec 2 .now n (.store b2) .none).1 (.store b2) .none).2 = .ok := by decide
-
-/-- … and with the repair (the error is not kept) the retry succeeds and the block is stored. -/
-theorem failed_init_write_not_cached_when_repaired :
-    let n := run 2 .all Node.init (hInit ++ [(.snap, .failInit)])
-    n.mem = .lazy ∧ (exec 2 .all n .snap .none).2 = .ok ∧ (exec 2 .all n (.store b2) .none).2 = .ok := by
-  decide
 
 /-! ### Steps and variants -/
 
@@ -220,17 +164,6 @@ theorem memory_tracks_store (W : Nat) (hW : 0 < W) (c : List Block) (f : Filt) (
           ∀ x i, wstart W c.length ≤ x → x < wstart W c.length + W → bitIn (c ++ [b]) x i →
             w'.has x i = true)) :=
   insert_filtOK hW hf hb
-
-/-- `crash_consistent_without_reverts_partial` (EVERY variant, also the trees before the fix
-commits): histories over {store or refused offer, set-L1-head, snapshot, graceful restart, kill}
-with a crash after ANY commit and a failure of ANY snapshot / L1-head write end in a good node.
-Partial: no RevertHead, no failed Store commit, no failed initialisation write — where the old
-trees broke (regression witnesses at the end). -/
-theorem crash_consistent_without_reverts_partial (W : Nat) (hW : 0 < W) (fx : Fixes)
-    (hs : List (Op × Fault)) (hv : ValidHist W fx Node.init hs) (hnr : NoRevert hs)
-    (hnf : NoFailedChainCommit hs) :
-    ∃ c, Good W c (run W fx Node.init hs) :=
-  good_run_no_revert hW fx hs Node.init [] (good_init W hW) hv hnr hnf
 
 -- non-vacuity: the empty node is good; a non-trivial good node of the repaired code (a failed
 -- Store commit at a window rollover, a crash in a RevertHead that re-opens a window, a failed
@@ -314,7 +247,7 @@ theorem failed_store_commit_blocks_retry_before_3373c0b :
       [(.store b0, .none), (.store b1, .failAt 0)]) (.store b1) .none).2 = .err .range := by decide
 
 theorem failed_store_commit_retry_ok_now :
-    (exec 2 .now (run 2 .now Node.init [(.store b0, .none), (.store b1, .failAt 0)]) (.store b1) .none).2
+    (exec 2 .all (run 2 .all Node.init [(.store b0, .none), (.store b1, .failAt 0)]) (.store b1) .none).2
       = .ok := by decide
 
 /-- L4 (revert), before 3373c0b: after a failed RevertHead commit the head was still on disk but
@@ -332,8 +265,8 @@ theorem crossing_revert_then_crash_blocks_store_before_702b167 :
         (.revert, .none), (.revert, .crashAfter 0)]) (.store b1') .none).2 = .err .range := by decide
 
 theorem crossing_revert_then_crash_ok_now :
-    (exec 2 .now
-      (run 2 .now Node.init [(.store b0, .none), (.store b1, .none), (.store b2, .none),
+    (exec 2 .all
+      (run 2 .all Node.init [(.store b0, .none), (.store b1, .none), (.store b2, .none),
         (.revert, .none), (.revert, .crashAfter 0)]) (.store b1') .none).2 = .ok := by decide
 
 /-- L3, before 84d7a3b: the shutdown snapshot was trusted after a revert-and-replace. -/
@@ -343,8 +276,32 @@ theorem stale_snapshot_after_revert_before_84d7a3b :
     getHeight n.disk = some 1 ∧ initObs 4 n.disk 1 9 = some (false, 2) := by decide
 
 theorem stale_snapshot_gone_now :
-    let n := run 4 .now Node.init [(.store b0, .none), (.store b1, .none), (.restart, .none),
+    let n := run 4 .all Node.init [(.store b0, .none), (.store b1, .none), (.restart, .none),
       (.revert, .none), (.store b1', .none), (.kill, .none)]
     initObs 4 n.disk 1 9 = some (true, 2) := by decide
+
+/-- L17, before c8ac4a7: the window write of a lazy initialisation fails once inside
+`WriteRunningEventFilter` — the error was cached (`Mem.broken`); every later snapshot attempt failed
+with it although the disk was intact and healthy, and the next block was refused once. -/
+theorem failed_init_write_is_cached_before_c8ac4a7 :
+    let fx := Fixes.beforeC8ac4a7
+    let n := run 2 fx Node.init (hInit ++ [(.snap, .failInit)])
+    n.mem = .broken ∧ getHeight n.disk = some 1 ∧
+    (exec 2 fx n .snap .none).2 = .err .init ∧
+    (exec 2 fx (exec 2 fx n .snap .none).1 .snap .none).2 = .err .init ∧
+    (exec 2 fx n (.store b2) .none).2 = .err .init ∧
+    (exec 2 fx (exec 2 fx n (.store b2) .none).1 (.store b2) .none).2 = .ok := by decide
+
+theorem failed_init_write_not_cached_now :
+    let n := run 2 .all Node.init (hInit ++ [(.snap, .failInit)])
+    n.mem = .lazy ∧ (exec 2 .all n .snap .none).2 = .ok ∧ (exec 2 .all n (.store b2) .none).2 = .ok := by
+  decide
+
+/-- What held before c8ac4a7: `Good` after every history and fault schedule in which no write of a
+lazy initialisation FAILS (crashes inside the initialisation included). -/
+theorem crash_consistent_before_c8ac4a7 (W : Nat) (hW : 0 < W) (hs : List (Op × Fault))
+    (hv : ValidHist W Fixes.beforeC8ac4a7 Node.init hs) (hni : ∀ x ∈ hs, x.2 ≠ .failInit) :
+    ∃ c, Good W c (run W Fixes.beforeC8ac4a7 Node.init hs) :=
+  good_run_now hW rfl rfl rfl hs Node.init [] (good_init W hW) hv hni
 
 end Juno.C05.Props
